@@ -202,6 +202,8 @@ def main(argv=None):
         return ck.finish()
     except AnalysisError as e:
         print(f'ANALYSIS-ERROR property={pid} reason={e}')
+        if os.environ.get('VERIF_TRACE'):
+            traceback.print_exc()
         return 2
     except Exception:
         tb = traceback.format_exc()
